@@ -33,6 +33,15 @@ Patterns
                  write-protected: the comparison is on the bytes (LAPACK ignores the flag)
     cb-identity  every user callback returns (a view of) the array it received
     cb-cached    every user callback returns one cached constant array per result shape
+    cb-kind      every user callback returns its result as float32 / complex128 / longdouble / int /
+                 a kind that changes from call to call (0-d arrays and NumPy scalars for scalar results)
+    kind         every caller array in another memory layout / dtype: float32; negative strides (1-D)
+                 or Fortran order with a reversed first axis (n-D), as a view of a caller buffer
+    repeat       the SAME argument objects are used for three successive calls; every answer (or
+                 exception type) must equal the answer of one call on pristine, separately built
+                 arguments, and the arguments are compared bit for bit at the end
+    raises       one argument is made unacceptable (last element / row dropped; a NaN put in) so that
+                 the call ends in an exception part-way: nothing may have been written by then
 
 In every pattern the ultimate base of a caller array that is itself a view is snapshotted as well.
 
@@ -61,7 +70,15 @@ import zlib
 
 import numpy as np
 
-PATTERNS = ["rw", "ro", "alias", "list", "int-array", "view", "cb-identity", "cb-cached"]
+PATTERNS = ["rw", "ro", "alias", "list", "int-array", "view", "kind", "repeat", "raises", "cb-identity", "cb-cached", "cb-kind"]
+# in the quick budget the other patterns run on every other entry (alternating with the seed and the pattern, so that
+# two consecutive seeds cover everything); every pattern on every entry in the thorough / large budgets
+ALWAYS_IN_QUICK = {"rw", "ro", "cb-identity", "cb-cached"}
+
+
+class Mismatch(AssertionError):
+    """Raised by an entry's own `call` when two answers that must agree differ (same argument object
+    used for several requests); reported as a violation."""
 GRID_MODULES = [
     "angular", "atomgrid", "basegrid", "becke", "coulomb", "cubic", "hirshfeld", "molgrid",
     "ngrid", "ode", "onedgrid", "periodicgrid", "poisson", "robust_poisson", "rtransform", "utils",
@@ -338,6 +355,22 @@ class _CBWrapper:
                             break
             if chosen is not None:
                 out = chosen
+        elif st.pattern == "cb-kind" and isinstance(real, (np.ndarray, float, int, np.floating, np.integer)) \
+                and not isinstance(real, (bool, np.bool_)):
+            kinds = {"float32": [np.float32], "complex": [np.complex128], "longdouble": [np.longdouble], "int": [np.int64],
+                     "alternating": [np.float64, np.float32, np.complex128, np.longdouble, np.complex64]}[st.sub]
+            t = kinds[st.cb_calls % len(kinds)]
+            with np.errstate(all="ignore"):
+                if isinstance(real, np.ndarray):
+                    out = (np.rint(real) if t is np.int64 else real).astype(t)
+                    if out.dtype.kind == "c":
+                        out += t(1e-3j)      # a genuinely complex value (its imaginary part must survive)
+                else:
+                    out = t(np.rint(real)) if t is np.int64 else t(real)
+                    if isinstance(out, np.complexfloating):
+                        out = out + t(1e-3j)
+                    if st.sub == "alternating" and st.cb_calls % 2:
+                        out = np.array(out)   # 0-d array
         elif isinstance(real, np.ndarray) and st.pattern == "cb-cached":
             key = (self.path, real.shape, real.dtype.str)
             if key not in st.cb_cache:
@@ -599,6 +632,84 @@ def _kind_txt(v) -> str:
 
 
 # ----------------------------------------------------------------------------
+# memory layout / dtype kinds, unacceptable arguments, answers of repeated calls
+# ----------------------------------------------------------------------------
+def _array_slots(kwargs, st: _State):
+    slots = []
+    _slots(kwargs, "", slots)
+    ro_ids = {id(a) for a in st.always_ro}
+    return [(parent, k, v, p) for parent, k, v, p in slots if isinstance(v, np.ndarray) and id(v) not in ro_ids]
+
+
+def _apply_kind(kwargs, st: _State):
+    for parent, k, v, p in _array_slots(kwargs, st):
+        if v.size == 0:
+            continue
+        if st.sub == "float32":
+            if v.dtype != np.float64:
+                continue
+            parent[k] = v.astype(np.float32)
+            st.converted.append(f"{p}: float32")
+        elif v.ndim == 1:
+            buf = v[::-1].copy()
+            parent[k] = buf[::-1]
+            st.converted.append(f"{p}: negative stride")
+        elif v.ndim >= 2:
+            buf = np.asfortranarray(v[::-1])
+            parent[k] = buf[::-1]
+            st.converted.append(f"{p}: Fortran order, first axis reversed")
+
+
+def _apply_bad(kwargs, st: _State, seed: int):
+    slots = [x for x in _array_slots(kwargs, st) if x[2].ndim >= 1 and x[2].shape[0] >= 2
+             and (st.sub == "truncate" or x[2].dtype.kind == "f")]
+    if not slots:
+        return
+    parent, k, v, p = slots[seed % len(slots)]
+    if st.sub == "truncate":
+        parent[k] = np.array(v[:-1])
+        st.converted.append(f"{p}: last element / row dropped")
+    else:
+        w = np.array(v)
+        w.reshape(-1)[(seed // 7) % w.size] = np.nan
+        parent[k] = w
+        st.converted.append(f"{p}: one NaN")
+
+
+def _same(a, b, depth=0) -> bool:
+    """Do two answers agree (exactly, or to 1e-9 relative)?  Objects it cannot compare agree."""
+    try:
+        if depth > 6:
+            return True
+        if isinstance(a, np.ndarray) or isinstance(b, np.ndarray):
+            a, b = np.asarray(a), np.asarray(b)
+            if a.shape != b.shape:
+                return False
+            if a.dtype.kind in "OUSV" or b.dtype.kind in "OUSV":
+                return True
+            if np.array_equal(a, b, equal_nan=True):
+                return True
+            with np.errstate(all="ignore"):
+                scale = max(float(np.nanmax(np.abs(a[np.isfinite(a)]))) if np.isfinite(a).any() else 0.0, 1e-300)
+                return bool(np.allclose(a, b, rtol=1e-9, atol=1e-9 * scale, equal_nan=True))
+        if isinstance(a, (bool, np.bool_, str, bytes, type(None))):
+            return a == b
+        if isinstance(a, (int, float, complex, np.generic)) and isinstance(b, (int, float, complex, np.generic)):
+            return _same(np.asarray(a), np.asarray(b), depth + 1)
+        if isinstance(a, (list, tuple)) and isinstance(b, (list, tuple)):
+            return len(a) == len(b) and all(_same(x, y, depth + 1) for x, y in zip(a, b))
+        if isinstance(a, dict) and isinstance(b, dict):
+            return list(a) == list(b) and all(_same(a[k], b[k], depth + 1) for k in a)
+        if _is_lib_obj(a) and _is_lib_obj(b) and type(a) is type(b):
+            for name in ("points", "weights", "indices", "degrees", "center", "atcoords", "aim_weights"):
+                if hasattr(a, name) and not _same(getattr(a, name, None), getattr(b, name, None), depth + 1):
+                    return False
+        return True
+    except Exception:  # noqa: BLE001 - the comparator never decides by crashing
+        return True
+
+
+# ----------------------------------------------------------------------------
 # one case
 # ----------------------------------------------------------------------------
 class _Timeout(Exception):
@@ -633,9 +744,25 @@ def _execute(ent: Entry, pattern: str, seed: int, sub: str = "same", protect: bo
     has_cb = bool(st.callbacks)
     res = {"applicable": True, "violations": [], "sig": [], "exc": None, "nontrivial": False,
            "readonly_exc": None, "aliased": [], "cb_calls": 0, "nslots": 0}
-    if pattern in ("cb-identity", "cb-cached") and not has_cb:
+    if pattern in ("cb-identity", "cb-cached", "cb-kind") and not has_cb:
         res["applicable"] = False
         return res
+    if pattern in ("kind", "raises"):
+        if pattern == "kind":
+            _apply_kind(kwargs, st)
+        else:
+            _apply_bad(kwargs, st, seed % LEVEL_BASE)
+        if not st.converted:
+            res["applicable"] = False
+            return res
+        res["aliased"] = list(st.converted)
+    reference = None
+    if pattern == "repeat":
+        # the answer on pristine, separately built arguments (same generator state)
+        rng0 = _rng_for(ent.id, seed)
+        np_seed = int(rng0.integers(0, 2**31 - 1))
+        call0, kwargs0 = ent.build(rng0, level)
+        kwargs0 = _subst(dict(kwargs0), "", _State("rw", "same"))
     if pattern == "alias":
         _apply_alias(kwargs, st)
         if not st.aliased:
@@ -693,7 +820,26 @@ def _execute(ent: Entry, pattern: str, seed: int, sub: str = "same", protect: bo
         with warnings.catch_warnings():
             warnings.simplefilter("ignore")
             with np.errstate(all="ignore"):
-                if audit is None:
+                if pattern == "repeat":
+                    def answer(c, kw):
+                        np.random.seed(np_seed)
+                        try:
+                            return ("ok", c(**kw))
+                        except (KeyboardInterrupt, _Timeout):
+                            raise
+                        except BaseException as e_:  # noqa: BLE001
+                            return ("raised", type(e_).__name__)
+                    reference = answer(call0, kwargs0)
+                    for rep in ((1,) if (_QUICK and ent.module in ("poisson", "robust_poisson")) else (1, 2, 3)):
+                        got = answer(call, kwargs)
+                        if got[0] != reference[0] or (got[0] == "raised" and got[1] != reference[1]) \
+                                or (got[0] == "ok" and not _same(reference[1], got[1])):
+                            res["violations"].append({
+                                "argname": "repeat", "object": f"answer of call {rep} of 3 with the same argument objects",
+                                "kind": "repeat-mismatch", "index": None,
+                                "before": _short(reference[1], 200), "after": _short(got[1], 200)})
+                            break
+                elif audit is None:
                     call(**kwargs)
                 else:
                     audit.watch(call, kwargs, st, ent, pattern)
@@ -715,8 +861,14 @@ def _execute(ent: Entry, pattern: str, seed: int, sub: str = "same", protect: bo
             res["readonly_exc"] = {"error": f"{type(exc).__name__}: {exc}", "where": tb_txt}
 
     viol = res["violations"]
+    if isinstance(exc, Mismatch):
+        viol.append({"argname": "repeat", "object": "answers for one shared argument object", "kind": "repeat-mismatch",
+                     "index": None, "before": None, "after": _short(str(exc), 300)})
     for (p, a), s in zip(st.arrays, snaps):
-        d = _array_diff(a, s)
+        try:
+            d = _array_diff(a, s)
+        except Exception as e_:  # noqa: BLE001 - a diff that cannot be described is still a diff
+            d = None if _snap(a) == s else {"index": None, "before": "?", "after": f"changed (diff failed: {type(e_).__name__})"}
         if d:
             viol.append({"argname": p.split("[")[0].split(".")[0].replace("<base>", ""), "object": p, "kind": "array", **d})
     for (p, c), s in zip(st.containers, csnaps):
@@ -754,6 +906,15 @@ def _subs(pattern, ent):
         return ["int64-ro", "int32"]
     if pattern == "view":
         return ["row"] if ent.slow else ["row", "strided+lists"]
+    if pattern == "kind":
+        return ["float32", "negstride-fortran"]
+    solver = ent.module in ("ode", "poisson", "robust_poisson")
+    if pattern == "raises":
+        return ["truncate"] if (_QUICK and solver) else ["truncate", "nan"]
+    if pattern == "cb-kind":
+        if ent.slow or (_QUICK and solver):
+            return ["float32", "complex"]
+        return ["float32", "complex", "longdouble", "int", "alternating"]
     return ["same"]
 
 
@@ -763,9 +924,16 @@ def _run_case(ent: Entry, pattern: str, seed: int, limit: float = 60.0):
     violations = []
     applicable = False
     subs = list(_subs(pattern, ent))
+    thin = _QUICK and (zlib.crc32(ent.id.encode()) + seed) % 2 == 1   # quick budget: every other entry gets the short list
+    if _QUICK and pattern in ("view", "kind") and len(subs) > 1:
+        subs = [subs[(zlib.crc32(ent.id.encode()) + seed) % len(subs)]]
+    if pattern == "raises":
+        limit = min(limit, 0.75)    # a NaN can keep an adaptive solver busy for ever: the interruption is the "exception"
+    if pattern == "cb-kind" and _QUICK:
+        limit = min(limit, 1.5)     # a solver fed with rounded / complex right-hand sides may not converge
     for sub in subs:
         r = _execute(ent, pattern, seed, sub, True, limit)
-        if pattern in ("list", "int-array") and "@" not in sub and sub == subs[0] and 1 < r["nslots"] and not ent.slow:
+        if pattern in ("list", "int-array") and "@" not in sub and sub == subs[0] and 1 < r["nslots"] and not ent.slow and not thin:
             # several integer sequences: also one at a time (alternating the array kind)
             for i in range(min(r["nslots"], 4)):
                 subs.append(f"same@{i}" if pattern == "list" else f"{('int64-ro', 'int32')[(i + seed) % 2]}@{i}")
@@ -821,6 +989,8 @@ def _what(ent, pattern, v) -> str:
         s += f" at index {v['index']}: {v.get('before')!r} -> {v.get('after')!r}"
     elif v.get("before") is not None:
         s += f": {v.get('before')} -> {v.get('after')}"
+    elif v.get("after") is not None:
+        s += f": {v.get('after')}"
     if v.get("readonly_error"):
         s += f" [{v['readonly_error']['error'][:80]} @ {v['readonly_error']['where'][:120]}]"
     return s
@@ -1025,8 +1195,11 @@ class ParamAudit:
                 arraylike = bool(_ARRAYLIKE_DOC.search(dtxt)) or bool(rec["kinds"] & {"ndarray", "int-ndarray", "list", "tuple", "dict", "int-list", "object"})
                 callable_ = bool(_CALLABLE_DOC.search(dtxt)) or "callable" in rec["kinds"]
                 dint = re.sub(r"dict\[int\s*:", "dict[", dtxt, flags=re.I)
-                intseq = bool(rec["intseq"]) or bool(
-                    re.search(r"\bint\b|\bints\b", dint) and _ARRAYLIKE_DOC.search(dint) and not re.search(r"float", dint))
+                doc_int = bool(re.search(r"\bint\b|\bints\b", dint) and _ARRAYLIKE_DOC.search(dint) and not re.search(r"float", dint))
+                intseq = bool(rec["intseq"]) or doc_int
+                # a plain list is demanded only where the documentation speaks of integers / lists (a coordinate
+                # array that happens to hold integers need not be accepted as a list)
+                wants_list = doc_int or bool(re.search(r"list|sequence|tuple", dtxt, re.I)) or "list" in rec["intseq"]
                 row = {"callable": q, "param": nm, "doc": dtxt[:60], "kinds": sorted(rec["kinds"]),
                        "owned": dict(rec["owned"]), "aliased": rec["aliased"], "intseq_forms": sorted(rec["intseq"]),
                        "arraylike": arraylike, "callable_param": callable_, "intseq": intseq,
@@ -1044,7 +1217,7 @@ class ParamAudit:
                             if not rec["owned"].get(pat):
                                 missing.append(pat)
                         if intseq:
-                            if "list" not in rec["intseq"]:
+                            if wants_list and "list" not in rec["intseq"]:
                                 missing.append("int-list")
                             if not any(x.startswith("array") for x in rec["intseq"]):
                                 missing.append("int-array")
@@ -1159,7 +1332,12 @@ def _priority(ent: Entry, flagged: set, closure) -> int:
 # ----------------------------------------------------------------------------
 # run
 # ----------------------------------------------------------------------------
+_QUICK = False
+
+
 def run(ctx, budget: str, flagged: set) -> None:
+    global _QUICK
+    _QUICK = budget == "quick"
     _load_entries()
     t0 = time.time()
     c0 = time.process_time()  # budgets in CPU seconds: the machine may be loaded
@@ -1181,7 +1359,7 @@ def run(ctx, budget: str, flagged: set) -> None:
         "cases": {p: 0 for p in PATTERNS}, "not_applicable": {p: 0 for p in PATTERNS},
         "raised": {}, "timeouts": [], "skipped": {}, "build_errors": {}, "trivial_entries": [],
         "flagged_first": sorted(e.id for e in _ENTRIES if prio[e.id] == 0),
-        "entries_run": 0,
+        "entries_run": 0, "cpu_by_pattern": {}, "thinned_in_quick": 0,
     }
     for e in _ENTRIES:
         reg["entries_by_module"][e.module] = reg["entries_by_module"].get(e.module, 0) + 1
@@ -1202,8 +1380,14 @@ def run(ctx, budget: str, flagged: set) -> None:
         for level, rep in plan:
             seed = level * LEVEL_BASE + base + rep
             for pattern in PATTERNS:
+                if budget == "quick" and pattern not in ALWAYS_IN_QUICK \
+                        and (zlib.crc32(ent.id.encode()) + ctx.seed + PATTERNS.index(pattern)) % 2:
+                    reg["thinned_in_quick"] += 1
+                    continue
+                tp = time.process_time()
                 try:
                     applicable, violations, info = _run_case(ent, pattern, seed, limit)
+                    reg["cpu_by_pattern"][pattern] = round(reg["cpu_by_pattern"].get(pattern, 0.0) + time.process_time() - tp, 2)
                 except KeyboardInterrupt:
                     raise
                 except BaseException as e:  # builder / harness problem
@@ -1310,6 +1494,7 @@ def _define_entries():
     _entries_coulomb_utils()
     _entries_rtransform_onedgrid()
     _entries_round3()
+    _entries_round4()
 
 
 # ---- helpers ---------------------------------------------------------------
@@ -3334,7 +3519,8 @@ def _entries_round3():
     def _(rng, lv):
         kw = dict(atcorenums=np.array([1.0, 8.0, 1.0]), atcoords=rng.normal(0, 0.8, (3, 3)), spacing=np.array(0.9),
                   extension=np.array(1.5))
-        return (lambda **k: UniformGrid.from_molecule(rotate=bool(rng.integers(0, 2)), **k).points), kw
+        rot = bool(rng.integers(0, 2))
+        return (lambda **k: UniformGrid.from_molecule(rotate=rot, **k).points), kw
 
     for cname in ("SingleTanh", "SingleExp", "SingleArcSinhExp", "TanhSinh"):
         klass = getattr(omod, cname, None)
@@ -3433,6 +3619,735 @@ def _entries_round3():
             def call(grid, func_vals, pts, ode_params, r_interval):
                 return solve_poisson_ivp(grid, func_vals, tf, r_interval=r_interval, ode_params=ode_params)(pts)
             return call, kw
+
+
+# ---- round 4: two-step histories (construct from the caller's arrays, then every setter / mutating
+# ---- method), classes 14-20 of AGENT_ROUND4.md ------------------------------------------------------
+def _kinded(a, kind):
+    """The array `a` in another dtype / memory layout (a caller-owned array, possibly a view)."""
+    a = np.asarray(a)
+    if kind == "float32":
+        return a.astype(np.float32)
+    if kind == "int":
+        return np.rint(a * 4).astype(np.int64)
+    if kind == "fortran":
+        return np.asfortranarray(a)
+    if kind == "negstride":
+        return a[::-1].copy()[::-1]
+    if kind == "strided":
+        buf = np.repeat(a, 2, axis=0)
+        return buf[::2]
+    if kind == "readonly":
+        b = np.array(a)
+        b.flags.writeable = False
+        return b
+    return np.array(a)
+
+
+def _entries_round4():
+    import grid.coulomb as cmod
+    import grid.onedgrid as omod
+    import grid.rtransform as rt
+    import grid.utils as umod
+    from grid.angular import AngularGrid
+    from grid.atomgrid import AtomGrid
+    from grid.basegrid import Grid, LocalGrid, OneDGrid
+    from grid.becke import BeckeWeights
+    from grid.cubic import Tensor1DGrids, UniformGrid
+    from grid.molgrid import MolGrid
+    from grid.ngrid import MultiDomainGrid
+    from grid.ode import solve_ode_bvp, solve_ode_ivp
+    from grid.periodicgrid import PeriodicGrid
+    from grid.poisson import interpolate_laplacian, solve_poisson_bvp
+    from grid.robust_poisson import solve_poisson_robust
+
+    # ------------------------------------------------------------------------------------------
+    # (k) histories: object built from the caller's arrays (twice: the two objects share them), an
+    #     infinite-radius local grid taken from it, then every property setter twice with caller
+    #     arrays, the mutating public methods in between (get_localgrid: tree, radial_component_splines:
+    #     basis cache), the setter again.  Snapshots: constructor arguments, both new values; inside the
+    #     call: the twin object, the local grid and the first new value must be what they were.
+    # ------------------------------------------------------------------------------------------
+    def f_grid(rng, lv):
+        n = 6 + 4 * lv
+        return (lambda points, weights: Grid(points, weights)), dict(points=_pts(rng, n), weights=_w(rng, n))
+
+    def f_grid1d(rng, lv):
+        n = 5 + 4 * lv
+        return (lambda points, weights: Grid(points, weights)), dict(points=np.sort(rng.uniform(-1, 1, n)), weights=_w(rng, n))
+
+    def f_oned(rng, lv):
+        n = 5 + 4 * lv
+        return (lambda points, weights, domain: OneDGrid(points, weights, domain)), dict(
+            points=np.sort(rng.uniform(-1, 1, n)), weights=_w(rng, n), domain=(-2.0, 2.0))
+
+    def f_local(rng, lv):
+        n = 5 + 4 * lv
+        return (lambda points, weights, center, indices: LocalGrid(points, weights, center, indices)), dict(
+            points=_pts(rng, n), weights=_w(rng, n), center=rng.normal(size=3), indices=np.arange(n))
+
+    def f_atom(rng, lv):
+        n = 3 + 2 * lv
+        return (lambda rgrid, degrees, center: AtomGrid(rgrid, degrees=degrees, center=center)), dict(
+            rgrid=_oned(rng, n), degrees=[int(d) for d in rng.choice([3, 4, 5], size=n)], center=rng.normal(0, 0.3, 3))
+
+    def f_mol(rng, lv):
+        atnums, atcoords, atgrids = _mol(rng, lv)
+        size = sum(g.size for g in atgrids)
+        store = bool(rng.integers(0, 2))
+        return (lambda atnums, atgrids, aim_weights: MolGrid(atnums, atgrids, aim_weights, store=store)), dict(
+            atnums=atnums, atgrids=atgrids, aim_weights=rng.uniform(0.2, 1.0, size))
+
+    def f_uniform(rng, lv):
+        return (lambda origin, axes, shape: UniformGrid(origin, axes, shape)), dict(
+            origin=rng.normal(0, 0.2, 3), axes=np.diag(rng.uniform(0.2, 0.5, 3)) + rng.normal(0, 0.02, (3, 3)),
+            shape=np.array([2, 3, 4]))
+
+    def f_tensor(rng, lv):
+        return (lambda oned_x, oned_y, oned_z: Tensor1DGrids(oned_x, oned_y, oned_z)), dict(
+            oned_x=_oned(rng, 2, False), oned_y=_oned(rng, 3, False), oned_z=_oned(rng, 4, False))
+
+    def f_periodic(wrap, dim):
+        def f(rng, lv):
+            n = 8 + 6 * lv
+            if dim == 1:
+                pts, rv = rng.uniform(-1.5, 2.5, n), np.array([float(rng.uniform(0.8, 1.5))])
+            else:
+                pts = rng.uniform(-1.5, 2.5, (n, 3))
+                rv = np.eye(3) * rng.uniform(0.8, 1.5, 3) + rng.normal(0, 0.05, (3, 3))
+            return (lambda points, weights, realvecs: PeriodicGrid(points, weights, realvecs, wrap=wrap)), dict(
+                points=pts, weights=_w(rng, n), realvecs=rv)
+        return f
+
+    def f_angular(rng, lv):
+        deg = int(rng.choice([3, 5, 7]))
+        cache = bool(rng.integers(0, 2))
+        return (lambda: AngularGrid(deg, cache=cache)), {}
+
+    def f_multi(rng, lv):
+        return (lambda grid_list: MultiDomainGrid(grid_list)), dict(grid_list=[Grid(_pts(rng, 3), _w(rng, 3)), Grid(_pts(rng, 2), _w(rng, 2))])
+
+    def f_gl(rng, lv):
+        n = int(rng.integers(3, 8))
+        return (lambda: omod.GaussLegendre(n)), {}
+
+    def f_transformed(cls_name):
+        def f(rng, lv):
+            n = 5 + 3 * lv
+            tf = rt.IdentityRTransform() if cls_name == "IdentityRTransform" else rt.BeckeRTransform(0.01, 1.3)
+            if cls_name == "IdentityRTransform":
+                oned = OneDGrid(np.sort(rng.uniform(0.05, 4.0, n)), _w(rng, n), (0, np.inf))
+            else:
+                oned = OneDGrid(np.sort(rng.uniform(-0.95, 0.95, n)), _w(rng, n), (-1, 1))
+            return (lambda oned_grid: tf.transform_1d_grid(oned_grid)), dict(oned_grid=oned)
+        return f
+
+    def f_handed_out(kind):
+        def f(rng, lv):
+            if kind == "infinite-localgrid":
+                n = 6
+                return (lambda points, weights, center: Grid(points, weights).get_localgrid(center, np.inf)), dict(
+                    points=_pts(rng, n), weights=_w(rng, n), center=np.zeros(3))
+            if kind == "shell-grid":
+                mk, kw = f_atom(rng, lv)
+                r_sq = bool(rng.integers(0, 2))
+                return (lambda **k: mk(**k).get_shell_grid(0, r_sq=r_sq)), kw
+            if kind in ("molgrid-item-store", "molgrid-item-nostore"):
+                atnums, atcoords, atgrids = _mol(rng, lv)
+                size = sum(g.size for g in atgrids)
+                st_ = kind.endswith("-store")
+                return (lambda atnums, atgrids, aim_weights: MolGrid(atnums, atgrids, aim_weights, store=st_)[1]), dict(
+                    atnums=atnums, atgrids=atgrids, aim_weights=rng.uniform(0.2, 1.0, size))
+            if kind == "grid-slice":
+                n = 7
+                return (lambda points, weights: Grid(points, weights)[1:5]), dict(points=_pts(rng, n), weights=_w(rng, n))
+            raise KeyError(kind)
+        return f
+
+    factories = {
+        "Grid": f_grid, "Grid-1d": f_grid1d, "OneDGrid": f_oned, "LocalGrid": f_local, "AtomGrid": f_atom, "MolGrid": f_mol,
+        "UniformGrid": f_uniform, "Tensor1DGrids": f_tensor, "PeriodicGrid-wrap": f_periodic(True, 3),
+        "PeriodicGrid-nowrap": f_periodic(False, 3), "PeriodicGrid-1d": f_periodic(True, 1), "AngularGrid": f_angular,
+        "MultiDomainGrid": f_multi, "GaussLegendre": f_gl,
+        "transform_1d_grid-Identity": f_transformed("IdentityRTransform"), "transform_1d_grid-Becke": f_transformed("BeckeRTransform"),
+        "infinite-localgrid": f_handed_out("infinite-localgrid"), "shell-grid": f_handed_out("shell-grid"),
+        "molgrid-item-store": f_handed_out("molgrid-item-store"), "molgrid-item-nostore": f_handed_out("molgrid-item-nostore"),
+        "grid-slice": f_handed_out("grid-slice"),
+    }
+
+    def probe_of(fac, seed_rng_state, lv):
+        mk, kw = fac(np.random.default_rng(seed_rng_state), lv)
+        return mk(**kw)
+
+    def owner_of(klass, prop):
+        for k in klass.__mro__:
+            if prop in vars(k) and isinstance(vars(k)[prop], property) and vars(k)[prop].fset is not None:
+                return f"{k.__module__[5:]}.{k.__name__}.{prop}"
+        return None
+
+    for cname, fac in factories.items():
+        try:
+            probe = probe_of(fac, 12345, 0)
+        except Exception:  # noqa: BLE001 - a class this tree cannot build: reported by the ordinary entries
+            continue
+        setters = sorted(pn for pn in dir(type(probe)) if not pn.startswith("_")
+                         and isinstance(getattr(type(probe), pn, None), property) and getattr(type(probe), pn).fset is not None)
+        for prop in setters:
+            qual = owner_of(type(probe), prop)
+            if qual is None:
+                continue
+
+            @entry(qual, f"history-{cname}")
+            def _(rng, lv, fac=fac, prop=prop, cname=cname):
+                state = int(rng.integers(0, 2**31 - 1))
+                mk, kw = fac(np.random.default_rng(state), lv)
+                cur = np.array(getattr(probe_of(fac, state, lv), prop), dtype=float)
+                kw = dict(kw)
+                kw["new1"] = cur * 1.01 + 0.001
+                kw["new2"] = cur[::-1].copy() + 0.5
+                kw["centre"] = np.zeros(cur.shape[1]) if (prop == "points" and cur.ndim == 2) else np.zeros(3)
+
+                def call(new1, new2, centre, **ctor):
+                    g, twin = mk(**ctor), mk(**ctor)
+                    loc = None
+                    try:
+                        c = centre if np.ndim(g.points) == 2 and g.points.shape[1] == len(centre) else np.array(0.0)
+                        loc = g.get_localgrid(c, np.inf)
+                        loc_before = (np.array(loc.points), np.array(loc.weights))
+                    except Exception:  # noqa: BLE001 - not every class has local grids
+                        c = None
+                    twin_before = (np.array(twin.points, dtype=float), np.array(twin.weights, dtype=float))
+                    new1_before = np.array(new1)
+                    out = []
+                    for step, val in enumerate((new1, new2, new1)):
+                        try:
+                            setattr(g, prop, val)
+                        except (ValueError, TypeError):
+                            pass          # a rejected assignment is a legitimate answer
+                        if step == 0 and c is not None:
+                            try:
+                                g.get_localgrid(c, 0.7)          # builds / rebuilds the tree
+                            except Exception:  # noqa: BLE001
+                                pass
+                        if step == 1 and hasattr(g, "radial_component_splines"):
+                            try:
+                                g.radial_component_splines(np.ones(g.size))   # fills the basis cache
+                            except Exception:  # noqa: BLE001
+                                pass
+                        try:
+                            out.append(g.integrate(np.ones(g.size)) if not isinstance(g, MultiDomainGrid) else g.size)
+                        except Exception:  # noqa: BLE001
+                            pass
+                    # (MolGrid(store=True)[i] IS the caller's own AtomGrid object: assigning to it is the caller's doing)
+                    if g is not twin and not (_same(twin.points, twin_before[0]) and _same(twin.weights, twin_before[1])):
+                        raise Mismatch(f"a second {cname} built from the same arguments changed when `{prop}` of the first was assigned")
+                    if loc is not None and not (_same(loc.points, loc_before[0]) and _same(loc.weights, loc_before[1])):
+                        raise Mismatch(f"the infinite-radius local grid of a {cname} changed when `{prop}` of the grid was assigned")
+                    if np.asarray(new1).tobytes() != new1_before.tobytes():
+                        raise Mismatch(f"the array assigned to `{prop}` first changed when a second one was assigned")
+                    return out
+                return call, kw
+
+    @entry("rtransform.ExpRTransform.set_maximum_parameter_b", "history")
+    def _(rng, lv):
+        n = 6 + 4 * lv
+        klass = getattr(rt, str(rng.choice(["ExpRTransform", "PowerRTransform", "LinearInfiniteRTransform"])))
+
+        def call(x1, x2, oned_grid):
+            tf = klass(0.1, 8.0)
+            tf.set_maximum_parameter_b(x1)
+            a = tf.transform(x1)
+            g = tf.transform_1d_grid(oned_grid)
+            tf.set_maximum_parameter_b(x2)
+            return a, g.points, tf.transform(x2), tf.b
+        return call, dict(x1=np.arange(n, dtype=float), x2=np.arange(n + 2, dtype=float),
+                          oned_grid=OneDGrid(np.arange(n, dtype=float), np.ones(n), (0.0, float(n - 1))))
+
+    # ------------------------------------------------------------------------------------------
+    # (l) class 14: arrays of every kind INSIDE an object that is handed to a function
+    # ------------------------------------------------------------------------------------------
+    KINDS = ("float32", "int", "fortran", "negstride", "strided", "readonly")
+
+    for kind in KINDS:
+        @entry("rtransform.BaseTransform.transform_1d_grid", f"grid-holding-{kind}-arrays")
+        def _(rng, lv, kind=kind):
+            n = 6 + 3 * lv
+            pts = np.sort(rng.uniform(-0.9, 0.9, n))
+            g = OneDGrid(_kinded(pts, kind) if kind != "int" else np.arange(1, n + 1), _kinded(_w(rng, n), kind if kind != "int" else "float32"),
+                         (-1, 1) if kind != "int" else (0, np.inf))
+            tf = rt.BeckeRTransform(0.01, 1.3) if kind != "int" else rt.IdentityRTransform()
+
+            def call(oned_grid):
+                t = tf.transform_1d_grid(oned_grid)
+                return t.points, t.weights
+            return call, dict(oned_grid=g)
+
+        @entry("atomgrid.AtomGrid.__init__", f"rgrid-holding-{kind}-arrays", covers=["atomgrid.AtomGrid.interpolate"])
+        def _(rng, lv, kind=kind):
+            n = 3 + 2 * lv
+            pts = np.sort(rng.uniform(0.1, 3.0, n)) + np.arange(n) * 0.05
+            if kind == "int":
+                pts = np.arange(1, n + 1)
+            rg = OneDGrid(_kinded(pts, kind) if kind != "int" else pts, _kinded(_w(rng, n), "float32" if kind == "int" else kind), (0, np.inf))
+            kw = dict(rgrid=rg, degrees=_kinded(np.array([3, 5, 7, 3, 5, 7, 3][:n]), kind) if kind in ("negstride", "strided", "readonly", "fortran")
+                      else [3] * n, center=_kinded(rng.normal(0, 0.3, 3), kind if kind != "int" else "float32"))
+            kw["pts"] = RO(_pts(rng, 3))
+
+            def call(rgrid, degrees, center, pts):
+                g = AtomGrid(rgrid, degrees=degrees, center=center)
+                f = g.interpolate(np.ones(g.size))
+                return g.points, f(pts), g.spherical_average(np.ones(g.size))(np.array([0.5]))
+            return call, kw
+
+        @entry("cubic.Tensor1DGrids.__init__", f"oned-holding-{kind}-arrays")
+        def _(rng, lv, kind=kind):
+            def one(n):
+                p = np.sort(rng.uniform(-1, 1, n)) + np.arange(n) * 1e-3
+                if kind == "int":
+                    p = np.arange(n)
+                return OneDGrid(_kinded(p, kind) if kind != "int" else p, _kinded(_w(rng, n), "float32" if kind == "int" else kind), (-3, 9))
+
+            def call(**k):
+                g = Tensor1DGrids(**k)
+                return g.points, g.weights, g.get_points_along_axes()
+            return call, dict(oned_x=one(2), oned_y=one(3), oned_z=one(4))
+
+        @entry("molgrid.MolGrid.__init__", f"atgrids-holding-{kind}-arrays", covers=["poisson.interpolate_laplacian"])
+        def _(rng, lv, kind=kind):
+            atcoords = np.array([[0.0, 0.0, -0.7], [0.0, 0.0, 0.7]])
+            atgrids = []
+            for i in range(2):
+                n = 3 + i
+                pts = np.sort(rng.uniform(0.1, 3.0, n)) + np.arange(n) * 0.05
+                rg = OneDGrid(_kinded(pts, kind if kind != "int" else "float32"), _kinded(_w(rng, n), kind if kind != "int" else "float32"), (0, np.inf))
+                atgrids.append(AtomGrid(rg, degrees=[3], center=_kinded(atcoords[i], kind if kind != "int" else "float32")))
+            size = sum(g.size for g in atgrids)
+            atnums = np.array([1, 8])
+            kw = dict(atnums=_kinded(atnums, kind) if kind in ("negstride", "strided", "readonly") else atnums, atgrids=atgrids,
+                      aim_weights=_kinded(rng.uniform(0.2, 1.0, size), kind if kind != "int" else "float32"),
+                      fv=_kinded(rng.normal(size=size), kind if kind != "int" else "float32"), pts=RO(_pts(rng, 3)))
+
+            def call(atnums, atgrids, aim_weights, fv, pts):
+                m = MolGrid(atnums, atgrids, aim_weights, store=True)
+                return m.integrate(np.asarray(fv, dtype=float)), m.interpolate(fv)(pts), interpolate_laplacian(m, fv)(pts), m[0].points
+            return call, kw
+
+        @entry("utils.dipole_moment_of_molecule", f"grid-holding-{kind}-arrays")
+        def _(rng, lv, kind=kind):
+            n = 8
+            k2 = kind if kind != "int" else "float32"
+            g = Grid(_kinded(_pts(rng, n, scale=2.0), kind), _kinded(_w(rng, n), k2))
+            kw = dict(grid=g, density=_kinded(rng.uniform(0, 1, n), k2), coords=_kinded(rng.normal(size=(2, 3)), kind),
+                      charges=np.array([1, 8]))
+            return (lambda grid, density, coords, charges: umod.dipole_moment_of_molecule(grid, density, coords, charges)), kw
+
+    # ------------------------------------------------------------------------------------------
+    # (m) class 15: both of two alternative arguments at once; omitted / None / the default value
+    # ------------------------------------------------------------------------------------------
+    for form in ("arrays", "lists", "sizes-untabulated"):
+        @entry("atomgrid.AtomGrid.__init__", f"degrees-and-sizes-both-{form}")
+        def _(rng, lv, form=form):
+            n = 3 + 2 * lv
+            d = [int(x) for x in rng.choice([3, 4, 5, 6], size=n)]
+            z = [int(x) for x in rng.choice([6, 14, 26] if form != "sizes-untabulated" else [7, 15, 27], size=n)]
+            kw = dict(rgrid=_oned(rng, n), degrees=np.array(d) if form == "arrays" else d, sizes=np.array(z) if form == "arrays" else z,
+                      center=rng.normal(0, 0.3, 3))
+
+            def call(**k):
+                g = AtomGrid(**k)
+                return g.degrees, g.points
+            return call, kw
+
+        @entry("atomgrid.AtomGrid.from_pruned", f"d-and-s-sectors-both-{form}")
+        def _(rng, lv, form=form):
+            d, z = [3, 4, 6, 5], ([6, 14, 26, 14] if form != "sizes-untabulated" else [7, 15, 27, 15])
+            kw = dict(rgrid=_oned(rng, 5 + 2 * lv), radius=1.0, r_sectors=[0.3, 0.8, 1.5] if form != "arrays" else np.array([0.3, 0.8, 1.5]),
+                      d_sectors=np.array(d) if form == "arrays" else d, s_sectors=np.array(z) if form == "arrays" else z,
+                      center=rng.normal(size=3))
+            return (lambda **k: AtomGrid.from_pruned(**k).degrees), kw
+
+    @entry("molgrid.MolGrid.from_pruned", "d-and-s-sectors-both")
+    def _(rng, lv):
+        atnums, atcoords, _g = _mol(rng, 0)
+        kw = dict(atnums=atnums, atcoords=atcoords, rgrid=_oned(rng, 5), radius=[1.0, 1.2], r_sectors=[[0.5, 1.0], [0.4, 0.9]],
+                  d_sectors=[[3, 4, 7], [3, 6, 5]], s_sectors=[[7, 14, 26], [6, 27, 14]])
+        return (lambda **k: MolGrid.from_pruned(**k).points), kw
+
+    for form in ("omitted", "none", "default-values"):
+        @entry("atomgrid.AtomGrid.convert_cartesian_to_spherical", f"optional-{form}")
+        def _(rng, lv, form=form):
+            kw = dict(rgrid=_oned(rng, 3), degrees=[3], center=rng.normal(0, 0.3, 3))
+
+            def call(rgrid, degrees, center):
+                g = AtomGrid(rgrid, degrees=degrees, center=center)
+                if form == "omitted":
+                    return g.convert_cartesian_to_spherical()
+                if form == "none":
+                    return g.convert_cartesian_to_spherical(None, None)
+                return g.convert_cartesian_to_spherical(points=g.points, center=g.center)
+            return call, kw
+
+        @entry("becke.BeckeWeights.generate_weights", f"optional-{form}")
+        def _(rng, lv, form=form):
+            natom = 2 if form == "default-values" else 1     # the defaults describe one sector
+            atcoords = (np.array([[0.0, 0.0, -0.7], [0.0, 0.0, 0.7]]) + rng.normal(0, 0.05, (2, 3)))[:natom]
+            n = 4
+            kw = dict(points=_pts(rng, 2 * n, scale=1.5), atcoords=atcoords, atnums=np.array([1, 8][:natom]))
+            extra = {"omitted": {}, "none": dict(select=None, pt_ind=None),
+                     "default-values": dict(select=[0, 1], pt_ind=[0, n, 2 * n])}[form]
+            kw.update({k: v for k, v in extra.items() if v is not None})
+            nones = {k: None for k, v in extra.items() if v is None}
+            return (lambda **k: BeckeWeights().generate_weights(**k, **nones)), kw
+
+        @entry("ode.solve_ode_bvp", f"optional-{form}")
+        def _(rng, lv, form=form):
+            x = np.linspace(0.0, 1.0, 8)
+            kw = dict(x=x, fx=CB(lambda t: np.sin(t) + 1.0), coeffs=np.array([1.0, 0.5, 2.0]), bd_cond=[[0, 0, 0.0], [1, 0, 1.0]])
+            if form == "default-values":
+                kw["initial_guess_y"] = rng.random((2, 8))
+
+            def call(x, fx, coeffs, bd_cond, initial_guess_y=None):
+                if form == "omitted":
+                    return solve_ode_bvp(x, fx, coeffs, bd_cond)(x)
+                if form == "none":
+                    return solve_ode_bvp(x, fx, coeffs, bd_cond, None, 1e-4, 5000, None, False)(x)
+                return solve_ode_bvp(x, fx, coeffs, bd_cond, transform=None, tol=1e-4, max_nodes=5000,
+                                     initial_guess_y=initial_guess_y, no_derivatives=False)(x)
+            return call, kw
+
+    # ------------------------------------------------------------------------------------------
+    # (n) class 16: ONE argument object for several requests and several entry points (also as a view
+    #     of a larger table); every answer must equal the one obtained from a pristine copy
+    # ------------------------------------------------------------------------------------------
+    def agree(name, a, b):
+        if not _same(a, b):
+            raise Mismatch(f"{name}: answer from the shared argument differs from the answer from a pristine copy: "
+                           f"{_short(a, 120)} vs {_short(b, 120)}")
+
+    for holder in ("array", "row-view"):
+        @entry("rtransform.BaseTransform.deriv", f"one-x-for-every-method-{holder}")
+        def _(rng, lv, holder=holder):
+            n = 6 + 4 * lv
+            x = np.sort(rng.uniform(-0.9, 0.9, n))
+            if holder == "row-view":
+                table = np.full((3, n), 0.123)
+                table[1] = x
+                x = table[1]
+            tfs = [rt.BeckeRTransform(0.01, 1.3), rt.MultiExpRTransform(0.01, 1.2), rt.KnowlesRTransform(0.01, 1.2, 2),
+                   rt.HandyRTransform(0.01, 1.2, 2), rt.LinearFiniteRTransform(0.1, 3.0)]
+
+            def call(x):
+                pristine = np.array(x)
+                for tf in tfs:
+                    for m in ("transform", "deriv", "deriv2", "deriv3", "transform", "deriv"):
+                        agree(f"{type(tf).__name__}.{m}", getattr(tf, m)(x), getattr(tf, m)(np.array(pristine)))
+                    r = tf.transform(x)
+                    for m in ("inverse", "deriv_inverse", "inverse"):
+                        agree(f"{type(tf).__name__}.{m}", getattr(tf, m)(r), getattr(tf, m)(np.array(r)))
+            return call, dict(x=x)
+
+        @entry("atomgrid.AtomGrid.interpolate", f"one-density-for-every-request-{holder}",
+               covers=["atomgrid.AtomGrid.spherical_average", "atomgrid.AtomGrid.radial_component_splines",
+                       "atomgrid.AtomGrid.integrate_angular_coordinates", "basegrid.Grid.moments"])
+        def _(rng, lv, holder=holder):
+            kw = dict(rgrid=_oned(rng, 4 + lv), degrees=[5], center=rng.normal(0, 0.3, 3))
+            size = AtomGrid(copy.deepcopy(kw["rgrid"]), degrees=[5]).size
+            fv = rng.normal(size=size)
+            if holder == "row-view":
+                table = np.full((3, size), 0.5)
+                table[1] = fv
+                fv = table[1]
+            kw["fv"] = fv
+            kw["pts"] = RO(_pts(rng, 3))
+            kw["r"] = RO(rng.uniform(0.1, 2.0, 3))
+
+            def call(rgrid, degrees, center, fv, pts, r):
+                g = AtomGrid(rgrid, degrees=degrees, center=center)
+                p = np.array(fv)
+                for _rep in range(2):
+                    agree("integrate", g.integrate(fv, fv), g.integrate(np.array(p), np.array(p)))
+                    agree("interpolate", g.interpolate(fv)(pts), g.interpolate(np.array(p))(pts))
+                    agree("spherical_average", g.spherical_average(fv)(r), g.spherical_average(np.array(p))(r))
+                    agree("integrate_angular_coordinates", g.integrate_angular_coordinates(fv), g.integrate_angular_coordinates(np.array(p)))
+                    agree("moments", g.moments(1, center.reshape(1, 3), fv), g.moments(1, center.reshape(1, 3), np.array(p)))
+                    agree("radial_component_splines", [s_(r) for s_ in g.radial_component_splines(fv)],
+                          [s_(r) for s_ in g.radial_component_splines(np.array(p))])
+            return call, kw
+
+    @entry("molgrid.MolGrid.from_pruned", "one-sector-list-for-every-atom")
+    def _(rng, lv):
+        atnums, atcoords, _g = _mol(rng, 0)
+        d, r_ = [3, 4, 7], [0.5, 1.0]
+        kw = dict(atnums=atnums, atcoords=atcoords, rgrid=_oned(rng, 5 + 2 * lv), radius=[1.0, 1.2], r_sectors=[r_, r_], d_sectors=[d, d])
+
+        def call(**k):
+            a = MolGrid.from_pruned(**k)
+            b = MolGrid.from_pruned(**k)
+            agree("from_pruned twice", a.points, b.points)
+            agree("degrees per atom", a.atgrids[0].degrees if a.atgrids else None, b.atgrids[0].degrees if b.atgrids else None)
+            return a.weights
+        return call, kw
+
+    @entry("molgrid.MolGrid.from_size", "one-rgrid-object-for-three-molecules")
+    def _(rng, lv):
+        atnums, atcoords, _g = _mol(rng, 0)
+        kw = dict(atnums=atnums, atcoords=atcoords, rgrid=_radial(rng, 5 + 2 * lv))
+
+        def call(atnums, atcoords, rgrid):
+            ref = MolGrid.from_size(np.array(atnums), np.array(atcoords), 14, copy.deepcopy(rgrid))
+            for _rep in range(3):
+                m = MolGrid.from_size(atnums, atcoords, 14, rgrid)
+                agree("from_size", (m.points, m.weights), (ref.points, ref.weights))
+                m2 = MolGrid.from_preset(atnums, atcoords, "coarse", rgrid)
+                a = AtomGrid.from_preset(1, "coarse", rgrid, center=atcoords[0])
+            return m2.size, a.size
+        return call, kw
+
+    for target in ("atomgrid", "molgrid"):
+        @entry("poisson.solve_poisson_bvp", f"{target}-one-density-for-several-solves",
+               covers=["robust_poisson.solve_poisson_robust", "poisson.interpolate_laplacian"], slow=(target == "molgrid"))
+        def _(rng, lv, target=target):
+            from grid.onedgrid import GaussLegendre
+            from grid.rtransform import BeckeRTransform, InverseRTransform
+            btf = BeckeRTransform(1e-4, 1.5)
+            cs = np.array([[0.0, 0.0, 0.0]]) if target == "atomgrid" else np.array([[0.0, 0.0, -0.7], [0.0, 0.0, 0.7]])
+            ags = []
+            for c in cs:
+                g1 = btf.transform_1d_grid(GaussLegendre(12))
+                ags.append(AtomGrid(OneDGrid(np.array(g1.points), np.array(g1.weights), (0, np.inf)), degrees=[3], center=c.copy()))
+            grid = ags[0] if target == "atomgrid" else MolGrid(np.array([1, 1]), ags, BeckeWeights(), store=True)
+            fv = sum(np.exp(-np.sum((grid.points - c) ** 2, axis=1)) for c in cs)
+            table = np.full((3, fv.size), 0.25)
+            table[1] = fv
+            tf = InverseRTransform(btf)
+            kw = dict(grid=grid, fv=table[1], pts=RO(_pts(rng, 3, scale=0.8)), ode_params={"tol": 1e-3, "max_nodes": 5000},
+                      atnums=np.ones(len(cs), dtype=int), atcoords=cs.copy())
+
+            def call(grid, fv, pts, ode_params, atnums, atcoords):
+                p = np.array(fv)
+                incl = target == "atomgrid"
+                first = solve_poisson_bvp(grid, fv, tf, include_origin=incl, ode_params=ode_params)(pts)
+                lap = interpolate_laplacian(grid, fv)(pts)
+                rob = solve_poisson_robust(grid, fv, tf, atnums, atcoords, ode_params=ode_params, include_origin=incl)(pts)
+                again = solve_poisson_bvp(grid, fv, tf, include_origin=incl, ode_params=ode_params)(pts)
+                agree("solve_poisson_bvp (second solve, same density array and option dict)", again, first)
+                agree("interpolate_laplacian", interpolate_laplacian(grid, np.array(p))(pts), lap)
+                return rob
+            return call, kw
+
+    @entry("coulomb.coulomb_potential", "one-exponent-array-for-s-and-p-and-three-calls")
+    def _(rng, lv):
+        k = 3
+        c, al, co = _pts(rng, k), rng.uniform(0.3, 3, k), rng.uniform(0.1, 1, k)
+        kw = dict(points=_pts(rng, 5, scale=2.0), centers=c, coeffs=co, alphas=al)
+
+        def call(points, centers, coeffs, alphas):
+            ref = cmod.coulomb_potential(np.array(points), np.array(centers), np.array(coeffs), np.array(alphas),
+                                         np.array(centers), np.array(coeffs), np.array(alphas))
+            for _rep in range(3):
+                agree("coulomb_potential", cmod.coulomb_potential(points, centers, coeffs, alphas, centers, coeffs, alphas), ref)
+                agree("coulomb_gaussian_s", cmod.coulomb_gaussian_s(alphas, 1.0), cmod.coulomb_gaussian_s(np.array(alphas), 1.0))
+        return call, kw
+
+    # ------------------------------------------------------------------------------------------
+    # (o) class 19: where the consumed layer is extreme (singular ends of the transforms, infinite
+    #     radii, coincident centres): branches that replace inf / nan are reached only there
+    # ------------------------------------------------------------------------------------------
+    for cname in ("BeckeRTransform", "MultiExpRTransform", "KnowlesRTransform", "HandyRTransform", "HandyModRTransform",
+                  "LinearFiniteRTransform", "InverseRTransform", "HyperbolicRTransform", "ExpRTransform", "PowerRTransform",
+                  "LinearInfiniteRTransform", "IdentityRTransform"):
+        if not hasattr(rt, cname):
+            continue
+
+        @entry("rtransform.BaseTransform.transform_1d_grid", f"{cname}-at-the-singular-ends",
+               covers=[f"rtransform.{cname}.transform", f"rtransform.{cname}.deriv", f"rtransform.{cname}.inverse"])
+        def _(rng, lv, cname=cname):
+            n = 7
+            if cname in ("BeckeRTransform", "MultiExpRTransform", "KnowlesRTransform", "HandyRTransform", "HandyModRTransform",
+                         "LinearFiniteRTransform"):
+                tf = {"BeckeRTransform": lambda: rt.BeckeRTransform(0.01, 1.3), "MultiExpRTransform": lambda: rt.MultiExpRTransform(0.01, 1.2),
+                      "KnowlesRTransform": lambda: rt.KnowlesRTransform(0.01, 1.2, 2), "HandyRTransform": lambda: rt.HandyRTransform(0.01, 1.2, 2),
+                      "HandyModRTransform": lambda: rt.HandyModRTransform(0.01, 10.0, 2),
+                      "LinearFiniteRTransform": lambda: rt.LinearFiniteRTransform(0.1, 3.0)}[cname]()
+                x = np.array([-1.0, -1.0 + 1e-15, -1.0 + 1e-8, 0.0, 1.0 - 1e-8, 1.0 - 1e-16, 1.0])
+                dom = (-1.0, 1.0)
+            elif cname == "InverseRTransform":
+                tf = rt.InverseRTransform(rt.BeckeRTransform(0.01, 1.3))
+                x = np.array([0.01, 0.01 + 1e-12, 0.1, 1.3, 1e3, 1e16, np.inf])
+                dom = (0.01, np.inf)
+            elif cname == "IdentityRTransform":
+                tf = rt.IdentityRTransform()
+                x = np.array([0.0, 1e-300, 1e-8, 1.0, 1e8, 1e300, np.inf])
+                dom = (0.0, np.inf)
+            else:
+                tf = {"HyperbolicRTransform": lambda: rt.HyperbolicRTransform(0.4 / n, 1.0 / (n + 2)), "ExpRTransform": lambda: rt.ExpRTransform(0.1, 8.0, b=float(n)),
+                      "PowerRTransform": lambda: rt.PowerRTransform(0.1, 8.0, b=float(n)),
+                      "LinearInfiniteRTransform": lambda: rt.LinearInfiniteRTransform(0.1, 8.0, b=float(n))}[cname]()
+                x = np.array([0.0, 1e-300, 1e-8, 1.0, n - 1e-8, float(n), n + 1.0])
+                dom = (0.0, float(n + 1))
+
+            def call(x, oned_grid):
+                out = []
+                for m in ("transform", "deriv", "deriv2", "deriv3"):
+                    out.append(getattr(tf, m)(x))
+                r = tf.transform(x)
+                for m in ("inverse", "deriv_inverse", "deriv2_inverse", "deriv3_inverse"):
+                    try:
+                        out.append(getattr(tf, m)(r))
+                    except (ValueError, ZeroDivisionError, FloatingPointError):
+                        pass
+                g = tf.transform_1d_grid(oned_grid)
+                return out, g.points, g.weights, g.domain
+            return call, dict(x=x, oned_grid=OneDGrid(np.array(x), np.ones(len(x)), dom))
+
+    @entry("becke.BeckeWeights.__call__", "coincident-atoms-and-far-points")
+    def _(rng, lv):
+        atcoords = np.array([[0.0, 0.0, 0.0], [0.0, 0.0, 0.0], [0.0, 0.0, 1.4]])
+        pts = np.vstack([atcoords, [[1e8, 0, 0], [0, 1e150, 0], [1e-300, 0, 0]]])
+        kw = dict(points=pts, atcoords=atcoords, atnums=np.array([1, 1, 8]), indices=np.array([0, 2, 4, 6]))
+        return (lambda points, atcoords, atnums, indices: BeckeWeights(order=3)(points, atcoords, atnums, indices)), kw
+
+    @entry("atomgrid.AtomGrid.interpolate", "radial-grid-reaching-1e16-and-zero")
+    def _(rng, lv):
+        tf = rt.BeckeRTransform(0.0, 1.5)
+        x = np.array([-1.0, -0.9, -0.3, 0.2, 0.7, 1.0 - 1e-16])
+        with np.errstate(all="ignore"):
+            r, w = tf.transform(x), tf.deriv(x) * 0.3
+        r = np.where(np.isfinite(r), r, 1e16)
+        w = np.where(np.isfinite(w), w, 1e16)
+        kw = dict(rgrid=OneDGrid(r, w, (0, np.inf)), degrees=[3], center=np.zeros(3))
+        size = AtomGrid(copy.deepcopy(kw["rgrid"]), degrees=[3]).size
+        kw["fv"] = rng.normal(size=size)
+        kw["pts"] = RO(np.array([[0.0, 0.0, 0.0], [0.0, 0.0, 1e-200], [0.3, 0.1, 0.2], [1e10, 0.0, 0.0]]))
+
+        def call(rgrid, degrees, center, fv, pts):
+            g = AtomGrid(rgrid, degrees=degrees, center=center)
+            f = g.interpolate(fv)
+            return f(pts), f(pts, deriv=1), g.spherical_average(fv)(np.array([0.0, 1.0])), interpolate_laplacian(g, fv)(pts)
+        return call, kw
+
+    for tfname in ("Becke", "Identity"):
+        @entry("ode.solve_ode_ivp", f"span-touching-the-singular-end-{tfname}")
+        def _(rng, lv, tfname=tfname):
+            transform = rt.BeckeRTransform(0.05, 1.2) if tfname == "Becke" else rt.IdentityRTransform()
+            span = np.array([-1.0, -0.2]) if tfname == "Becke" else np.array([0.0, 1.0])
+            kw = dict(x_span=span, fx=CB(lambda t: 1.0 / (1.0 + t**2)), coeffs=[CB(lambda t: t), 0.5, 1.0], y0=np.array([0.3, -0.2]))
+
+            def call(x_span, fx, coeffs, y0):
+                return solve_ode_ivp(x_span, fx, coeffs, y0, transform, method="RK45", rtol=1e-4, atol=1e-5)(np.array([x_span[0] + 0.1]))
+            return call, kw
+
+    # ------------------------------------------------------------------------------------------
+    # (p) class 20: unequal dimensions, sizes 1 and 2
+    # ------------------------------------------------------------------------------------------
+    for shape in ((2, 3, 4), (4, 2, 3), (3, 4, 2), (2, 2, 3), (2, 3), (3, 2), (1, 2, 3), (2, 1)):
+        @entry("cubic.UniformGrid.__init__", "shape-" + "x".join(map(str, shape)),
+               covers=["cubic._HyperRectangleGrid.index_to_coordinates", "cubic._HyperRectangleGrid.coordinates_to_index",
+                       "cubic._HyperRectangleGrid.get_points_along_axes"])
+        def _(rng, lv, shape=shape):
+            d = len(shape)
+            kw = dict(origin=rng.normal(0, 0.2, d), axes=np.diag(rng.uniform(0.2, 0.5, d)), shape=np.array(shape))
+            weight = str(rng.choice(["Trapezoid", "Rectangle", "Fourier1", "Alternative"] + (["Fourier2"] if d == 3 else [])))
+            kw["vals"] = rng.normal(size=int(np.prod(shape)))
+            kw["idx"] = np.array([s_ - 1 for s_ in shape])
+
+            def call(origin, axes, shape, vals, idx):
+                g = UniformGrid(origin, axes, shape, weight=weight)
+                last = int(np.prod(shape)) - 1
+                return (g.points, g.weights, g.integrate(vals), g.index_to_coordinates(0), g.index_to_coordinates(last),
+                        g.coordinates_to_index(idx), g.get_points_along_axes(), g.closest_point(origin))
+            return call, kw
+
+    for sizes in ((2, 3, 4), (4, 2, 3), (3, 4, 2), (2, 3), (3, 2), (1, 2, 3)):
+        @entry("cubic.Tensor1DGrids.__init__", "sizes-" + "x".join(map(str, sizes)))
+        def _(rng, lv, sizes=sizes):
+            names = ["oned_x", "oned_y", "oned_z"][: len(sizes)]
+            kw = {nm: _oned(rng, n, False) for nm, n in zip(names, sizes)}
+            kw["vals"] = rng.normal(size=int(np.prod(sizes)))
+
+            def call(vals, **k):
+                g = Tensor1DGrids(**k)
+                return g.points, g.weights, g.integrate(vals), g.get_points_along_axes(), g.index_to_coordinates(int(np.prod(sizes)) - 1)
+            return call, kw
+
+    for nshell, degs in ((1, [3]), (1, [4]), (2, [3, 7]), (2, [6, 3]), (3, [3])):
+        @entry("atomgrid.AtomGrid.integrate_angular_coordinates", f"{nshell}-shells-degrees-{'-'.join(map(str, degs))}",
+               covers=["atomgrid.AtomGrid.interpolate", "atomgrid.AtomGrid.radial_component_splines"])
+        def _(rng, lv, nshell=nshell, degs=degs):
+            kw = dict(rgrid=_oned(rng, nshell), degrees=list(degs), center=rng.normal(0, 0.3, 3))
+            size = AtomGrid(copy.deepcopy(kw["rgrid"]), degrees=list(degs)).size
+            kw["f1"] = rng.normal(size=(1, size))
+            kw["f2"] = rng.normal(size=(2, 1, size))
+            kw["pts"] = RO(_pts(rng, 2))
+
+            def call(rgrid, degrees, center, f1, f2, pts):
+                g = AtomGrid(rgrid, degrees=degrees, center=center)
+                out = [g.integrate_angular_coordinates(f1), g.integrate_angular_coordinates(f2), g.integrate_angular_coordinates(f1[0])]
+                try:
+                    out.append(g.interpolate(f1[0])(pts))
+                    out.append([s_(np.array([0.5])) for s_ in g.radial_component_splines(f2[1, 0])])
+                except Exception:  # noqa: BLE001 - one or two shells cannot carry a cubic spline
+                    pass
+                return out
+            return call, kw
+
+    for natom, nrad in ((1, (2,)), (2, (1, 3)), (2, (3, 2)), (3, (2, 1, 4))):
+        @entry("molgrid.MolGrid.__init__", f"{natom}-atoms-radial-sizes-{'-'.join(map(str, nrad))}",
+               covers=["molgrid.MolGrid.get_atomic_grid", "molgrid.MolGrid.__getitem__", "becke.BeckeWeights.__call__"])
+        def _(rng, lv, natom=natom, nrad=nrad):
+            atcoords = np.array([[0.0, 0.0, -0.7], [0.0, 0.0, 0.7], [0.9, 0.3, 0.0]])[:natom]
+            atgrids = [AtomGrid(_oned(rng, n), degrees=[3 + 2 * i], center=atcoords[i].copy()) for i, n in enumerate(nrad)]
+            aim = str(rng.choice(["becke", "array"]))
+            size = sum(g.size for g in atgrids)
+            kw = dict(atnums=np.array([1, 8, 6][:natom]), atgrids=atgrids,
+                      aim_weights=BeckeWeights() if aim == "becke" else rng.uniform(0.2, 1.0, size), fv=rng.normal(size=size))
+
+            def call(atnums, atgrids, aim_weights, fv):
+                out = []
+                for store in (True, False):
+                    m = MolGrid(atnums, atgrids, aim_weights, store=store)
+                    out += [m.points, m.weights, m.integrate(fv), m[natom - 1].points, m.get_atomic_grid(0).weights]
+                return out
+            return call, kw
+
+    for n in (1, 2):
+        for ncent in (1, 2, 3):
+            if n == ncent:
+                continue
+
+            @entry("basegrid.Grid.moments", f"{n}-points-{ncent}-centres")
+            def _(rng, lv, n=n, ncent=ncent):
+                tm = str(rng.choice(["cartesian", "pure", "radial", "pure-radial"]))
+                kw = dict(points=_pts(rng, n), weights=_w(rng, n), centers=rng.normal(0, 0.3, (ncent, 3)), fv=rng.normal(size=n))
+                return (lambda points, weights, centers, fv: Grid(points, weights).moments(2, centers, fv, type_mom=tm, return_orders=True)), kw
+
+        @entry("utils.generate_real_spherical_harmonics", f"{n}-angles", covers=["utils.generate_derivative_real_spherical_harmonics", "utils.solid_harmonics"])
+        def _(rng, lv, n=n):
+            kw = dict(theta=rng.uniform(-np.pi, np.pi, n), phi=rng.uniform(0.05, np.pi - 0.05, n))
+
+            def call(theta, phi):
+                out = []
+                for l_max in (0, 1, 2):
+                    out += [umod.generate_real_spherical_harmonics(l_max, theta, phi), umod.generate_derivative_real_spherical_harmonics(l_max, theta, phi),
+                            umod.solid_harmonics(l_max, np.column_stack([np.ones(len(theta)), theta, phi]))]
+                return out
+            return call, kw
+
+        @entry("periodicgrid.PeriodicGrid.get_localgrid", f"{n}-points")
+        def _(rng, lv, n=n):
+            kw = dict(points=rng.uniform(-1.5, 2.5, (n, 3)), weights=_w(rng, n), realvecs=(np.eye(3) * rng.uniform(0.8, 1.5, 3))[: 3 - n],
+                      center=rng.uniform(-1, 1, 3))
+
+            def call(points, weights, realvecs, center):
+                g = PeriodicGrid(points, weights, realvecs, wrap=bool(n - 1))
+                lg = g.get_localgrid(center, 1.1)
+                return g.points, lg.points, lg.weights, lg.indices
+            return call, kw
+
+        @entry("coulomb.coulomb_potential", f"{n}-centres-{3 - n}-points")
+        def _(rng, lv, n=n):
+            kw = dict(points=_pts(rng, 3 - n, scale=2.0), centers_s=_pts(rng, n), coeffs_s=rng.uniform(0.1, 1, n), alphas_s=rng.uniform(0.3, 3, n))
+            return (lambda **a: cmod.coulomb_potential(**a)), kw
 
 
 if __name__ == "__main__":
